@@ -10,7 +10,7 @@
     unbounded [Z] in the model (strings with 8*len+7 >= 2^31 are outside the
     statement: their bit positions do not fit New's int32 arguments). *)
 From Coq Require Import ZArith List Bool.
-From Low Require Import Lib.MachInt Lib.Bits Lib.BitSeq Lib.Bytes Lib.Lex Lib.Pack_bw Lib.Val Model.Bitstr Model.Bitstr32 Spec.BitstrSpec Spec.BitstrSearchSpec Proofs.BitstrProofs Proofs.BitstrSearchProofs Proofs.Bitstr32Proofs.
+From Low Require Import Lib.MachInt Lib.Bits Lib.BitSeq Lib.Bytes Lib.Lex Lib.Pack_bw Lib.Val Model.Bitstr Model.Bitstr32 Spec.BitstrSpec Spec.BitstrSearchSpec Spec.BitstrDecodeSpec Proofs.BitstrProofs Proofs.BitstrSearchProofs Proofs.Bitstr32Proofs Proofs.BitstrDecodeProofs.
 Import ListNotations.
 Open Scope Z_scope.
 
@@ -190,6 +190,46 @@ Theorem C09_new_full_int32_range_refuted : exists s f t,
 Proof. exact New32_top_witness. Qed.
 Print Assumptions C09_new_full_int32_range_refuted.
 
+(** * WIDENED: the encodings as a decidable set of byte strings, and decoding
+    ([wf_enc], [decB] of Spec/BitstrDecodeSpec.v) *)
+
+(** the canonical encodings are exactly the well-formed byte strings … *)
+Theorem C09_wf_iff : forall e, wf_enc e = true <-> exists b, e = encB b.
+Proof. exact wf_iff. Qed.
+Print Assumptions C09_wf_iff.
+
+(** … decoding inverts encoding, both ways … *)
+Theorem C09_decode_encode : forall b, decB (encB b) = b.
+Proof. exact decB_encB. Qed.
+Print Assumptions C09_decode_encode.
+
+Theorem C09_encode_decode : forall e, wf_enc e = true -> encB (decB e) = e.
+Proof. exact encB_decB. Qed.
+Print Assumptions C09_encode_decode.
+
+(** … New produces a well-formed encoding that decodes to the bits of the range
+    (op bitstr.New/decode) … *)
+Theorem C09_new_decodes : forall s f t e, bytes_ok s -> 0 <= f <= t -> t <= 8 * zlen s ->
+  New s f t = Some e -> wf_enc e = true /\ decB e = B s f t.
+Proof. exact New_wf. Qed.
+Print Assumptions C09_new_decodes.
+
+(** … and Len / Cmp / CmpUpto on ANY well-formed byte strings are length / order /
+    truncated order of the bit strings they denote *)
+Theorem C09_len_wf : forall e, wf_enc e = true -> Len e = Some (zlen (decB e)).
+Proof. exact Len_wf. Qed.
+Print Assumptions C09_len_wf.
+
+Theorem C09_cmp_wf : forall e1 e2, wf_enc e1 = true -> wf_enc e2 = true ->
+  Cmp e1 e2 = Some (cmp_sign (bits_cmp (decB e1) (decB e2))).
+Proof. exact Cmp_wf. Qed.
+Print Assumptions C09_cmp_wf.
+
+Theorem C09_cmpupto_wf : forall a e, bytes_ok a -> wf_enc e = true ->
+  CmpUpto a e = Some (cmp_sign (bits_cmp (upto a (decB e)) (decB e))).
+Proof. exact CmpUpto_wf. Qed.
+Print Assumptions C09_cmpupto_wf.
+
 (** * non-vacuity: the hypotheses are satisfiable and the statements say something
     ("abc" = 0x61 0x62 0x63; the doc example New("abc", 5, 12)) *)
 Example C09_new_nonvacuous :
@@ -268,3 +308,14 @@ Example C09_new32_nonvacuous :
 Proof.
   repeat match goal with |- _ /\ _ => split end; try (vm_compute; reflexivity); vm_compute; congruence.
 Qed.
+
+Example C09_decode_nonvacuous :
+  wf_enc [0x61; 0x60; 0xf0] = true /\
+  decB [0x61; 0x60; 0xf0] = [false; true; true; false; false; false; false; true; false; true; true; false] /\
+  wf_enc [0xff] = true /\ decB [0xff] = [] /\
+  (* not encodings: no mask byte / a mask that is not a run of high bits / bits outside the mask /
+     no payload but a partial mask / a non-byte *)
+  wf_enc [] = false /\ wf_enc [0x61; 0x0f] = false /\ wf_enc [0x61; 0x68; 0xf0] = false /\
+  wf_enc [0xf0] = false /\ wf_enc [256; 0xff] = false /\
+  Cmp [0x61; 0x60; 0xf0] [0x61; 0x60; 0xf8] = Some (-1).
+Proof. repeat match goal with |- _ /\ _ => split end; vm_compute; reflexivity. Qed.
